@@ -160,6 +160,10 @@ def ensure(cfg, quiet=True):
             _ensure_extras(cfg)
             return d
         t0 = time.time()
+        # build into a scratch directory and swap it in, so that checks still running from the old
+        # build directory (libraries already mapped) are not disturbed by a rebuild
+        final = d
+        d = final + ".new"
         shutil.rmtree(d, ignore_errors=True)
         os.makedirs(d)
         log = os.path.join(d, "vf_build.log")
@@ -177,10 +181,16 @@ def ensure(cfg, quiet=True):
         rc, out = _run(["cmake", "--build", d, "-j", "16"], env=env, log=log)
         if rc != 0:
             raise RuntimeError("build failed for %s:\n%s" % (cfg, out[-3000:]))
-        _build_shim(cfg, log)
-        with open(sf, "w") as fh:
+        _build_shim(cfg, log, d)
+        with open(os.path.join(d, "vf.stamp"), "w") as fh:
             fh.write(want)
-        _ensure_extras(cfg)
+        _ensure_extras(cfg, d)
+        old = final + ".old-%d" % os.getpid()
+        if os.path.exists(final):
+            os.rename(final, old)
+        os.rename(d, final)
+        shutil.rmtree(old, ignore_errors=True)
+        d = final
         if not quiet:
             print("[build] %s built in %.1fs" % (cfg, time.time() - t0), file=sys.stderr)
         return d
@@ -243,9 +253,9 @@ def _gen_tables(d):
                 fh.write("#endif\n")
 
 
-def _build_shim(cfg, log):
+def _build_shim(cfg, log, d=None):
     c = CONFIGS[cfg]
-    d = builddir(cfg)
+    d = d or builddir(cfg)
     _gen_tables(d)
     san = c.get("san", "asan")
     inc = ["-I" + d, "-I" + os.path.join(d, "include"), "-I" + os.path.join(REPO, "include"),
@@ -269,14 +279,14 @@ def _build_shim(cfg, log):
     if rc != 0:
         raise RuntimeError("fi build failed:\n" + out[-3000:])
     cmd = ["gcc", "-std=gnu11", "-w", "-fPIC", "-shared"] + fl + inc + srcs + \
-          ["-L" + os.path.join(d, "lib"), "-lrelic", "-Wl,-rpath," + os.path.join(d, "lib"),
+          ["-L" + os.path.join(d, "lib"), "-lrelic", "-Wl,-rpath,$ORIGIN/lib",
            "-lpthread", "-o", os.path.join(d, "libvfshim.so")]
     rc, out = _run(cmd, log=log)
     if rc != 0:
         raise RuntimeError("shim build failed for %s:\n%s" % (cfg, out[-4000:]))
     if san == "thread":
         cmd = ["gcc", "-std=gnu11", "-w"] + TSAN.split() + inc + [os.path.join(SHIM_DIR, "vf_thr.c")] + \
-              ["-L" + os.path.join(d, "lib"), "-lrelic", "-Wl,-rpath," + os.path.join(d, "lib"), "-lpthread",
+              ["-L" + os.path.join(d, "lib"), "-lrelic", "-Wl,-rpath,$ORIGIN/lib", "-lpthread",
                "-o", os.path.join(d, "vf_thr")]
         rc, out = _run(cmd, log=log)
         if rc != 0:
@@ -301,9 +311,9 @@ def _shim_flags(cfg):
     return fl
 
 
-def _ensure_extras(cfg):
+def _ensure_extras(cfg, d=None):
     """Each shim/vf_x_<name>.c becomes its own libvfx_<name>.so; a failing extra only affects its user."""
-    d = builddir(cfg)
+    d = d or builddir(cfg)
     inc = ["-I" + d, "-I" + os.path.join(d, "include"), "-I" + os.path.join(REPO, "include"),
            "-I" + os.path.join(REPO, "include", "low"), "-I" + os.path.join(REPO, "src")]
     for f in sorted(os.listdir(SHIM_DIR)):
@@ -317,7 +327,7 @@ def _ensure_extras(cfg):
         if os.path.exists(st) and open(st).read().strip() == h and os.path.exists(out):
             continue
         cmd = ["gcc", "-std=gnu11", "-w", "-fPIC", "-shared"] + _shim_flags(cfg) + inc + [src] + \
-              ["-L" + os.path.join(d, "lib"), "-lrelic", "-Wl,-rpath," + os.path.join(d, "lib"), "-lpthread", "-o", out]
+              ["-L" + os.path.join(d, "lib"), "-lrelic", "-Wl,-rpath,$ORIGIN/lib", "-lpthread", "-o", out]
         rc, o = _run(cmd, log=os.path.join(d, "vf_build.log"))
         if rc != 0:
             if os.path.exists(out):
